@@ -309,6 +309,44 @@ theorem C06_decode_last_wins (kvs : List (String × Tree F)) (k : String) (v : T
     subst hv
     simp [unmarshal, List.foldl_append, unmarshalStep, hk]
 
+/-! ### the error values (geojson.go) -/
+
+/-- **C06_error_text** ("Unsupported types … are reported as errors by Encode", the error VALUE): for every value of
+an unsupported type (not the nil interface) `ToGeoJSON`/`Encode` return an `UnsupportedGeometryError` whose payload
+is the Go type name, so `err.Error()` is `"geojson: unsupported geometry type " ++ that name`, a non-empty name;
+for a supported type there is no geojson error. -/
+theorem C06_error_text (g : Geom F) :
+    (supported g = false → isNil g = false →
+      encodeErrorText g = some ("geojson: unsupported geometry type " ++ goTypeName g) ∧
+      (goTypeName g = "geom.GeometryCollection" ∨ goTypeName g = "*geom.Bounds")) ∧
+    (supported g = true → encodeErrorText g = none) := by
+  cases g with
+  | collection gs => exact ⟨fun _ _ => ⟨rfl, Or.inl rfl⟩, fun h => by simp [supported] at h⟩
+  | bounds a b => exact ⟨fun _ _ => ⟨rfl, Or.inr rfl⟩, fun h => by simp [supported] at h⟩
+  | nil => exact ⟨fun _ h => by simp [isNil] at h, fun h => by simp [supported] at h⟩
+  | point p => exact ⟨fun h => by simp [supported] at h, fun _ => rfl⟩
+  | multiPoint p => exact ⟨fun h => by simp [supported] at h, fun _ => rfl⟩
+  | lineString p => exact ⟨fun h => by simp [supported] at h, fun _ => rfl⟩
+  | multiLineString p => exact ⟨fun h => by simp [supported] at h, fun _ => rfl⟩
+  | polygon p => exact ⟨fun h => by simp [supported] at h, fun _ => rfl⟩
+  | multiPolygon p => exact ⟨fun h => by simp [supported] at h, fun _ => rfl⟩
+
+/-- **C06_decode_error_text**: the text of `FromGeoJSON`'s errors — an unknown type name is quoted in the message; every
+other failure of the model is `"geojson: invalid geometry"`; success has no error text. -/
+theorem C06_decode_error_text (ty : String) (c : Tree F) :
+    (ty ∉ sixNames → decodeErrorText ty c = some ("geojson: unsupported geometry type " ++ ty)) ∧
+    (fromGeoJSON ty c = .error .invalid → decodeErrorText ty c = some "geojson: invalid geometry") ∧
+    (∀ g, fromGeoJSON ty c = .ok g → decodeErrorText ty c = none) := by
+  refine ⟨fun h => ?_, fun h => ?_, fun g h => ?_⟩
+  · unfold decodeErrorText; rw [C06_decode_unknown_type ty c h]; rfl
+  · unfold decodeErrorText; rw [h]; rfl
+  · unfold decodeErrorText; rw [h]
+
+example : encodeErrorText (Geom.bounds (⟨0, 0⟩ : Pt Int) ⟨1, 1⟩) =
+    some ("geojson: unsupported geometry type " ++ "*geom.Bounds") := rfl
+example : decodeErrorText "Feature" (Tree.null : Tree Int) = some ("geojson: unsupported geometry type " ++ "Feature") :=
+  (C06_decode_error_text "Feature" .null).1 (by decide)
+
 /-! ### Non-vacuity / concrete documents -/
 
 /-- a GeoJSON Feature wrapping a geometry: not a geometry object — UnsupportedGeometryError -/
